@@ -240,7 +240,7 @@ def setup(tier, seed):
     S.install_monitors()
     spec = {
         'jobs': _jobs(tier),
-        'budget_s': 900 if tier == 'quick' else 3300,
+        'budget_s': 780 if tier == 'quick' else 3300,
         'explanation': 'jesse.research.backtest (real _step_simulator/_skip_simulator, Strategy, Broker, Order, Position, exchanges, '
                        'candle store) is executed on symbolic one-minute candles with strategy templates whose order prices are '
                        'symbolic; per minute the recorded fills/active orders are checked against the path model by solver queries: '
